@@ -56,4 +56,190 @@ def listen : ListenSrc where
   close := [.innerClose, .onceCloseDone, .retErr]
   connClose := [.innerClose, .onceRelease, .retErr]
 
+/-! ## Semantics
+
+Every statement is one atomic step: `acquire` and `release` are a single select / receive
+each (executed with the generic `Sel.step`), `sync.Once.Do(f)` with a one-operation `f` is
+atomic with respect to other `Do` calls (the guarantee of the sync package).  The wrapped
+listener is the environment: its `Accept` nondeterministically fails or hands out a fresh
+connection; after its `Close` it only fails (assumption on the wrapped listener). -/
+
+structure LConn where
+  /-- handed to the caller by `Accept` (an accepted connection) -/
+  returned : Bool := false
+  /-- `limitListenerConn.Close` reached `l.Conn.Close()` at least once -/
+  closeCalled : Bool := false
+  /-- `releaseOnce` has fired -/
+  released : Bool := false
+  /-- ghost: how many semaphore releases were performed for this connection -/
+  releases : Nat := 0
+deriving DecidableEq, Repr
+
+inductive LMeth where
+  | accept
+  | close
+  | connClose (k : Nat)
+deriving DecidableEq, Repr
+
+inductive LResult where
+  | err
+  | conn (k : Nat)
+  | closed           -- result of Close / Conn.Close
+deriving DecidableEq, Repr
+
+structure LG where
+  cont : List LStmt := []
+  meth : LMeth := .close
+  /-- inside the `for` loop entered when `acquire` returned false -/
+  draining : Bool := false
+  /-- the last call of the wrapped listener returned an error -/
+  err : Bool := false
+  /-- a connection was just accepted from the wrapped listener (`c`) -/
+  conn : Bool := false
+  /-- ghost: owns a semaphore token that is not yet attached to a returned connection -/
+  slot : Bool := false
+  /-- ghost: this call was invoked after some `Close()` had returned -/
+  afterClose : Bool := false
+  result : Option LResult := none
+deriving DecidableEq, Repr
+
+structure LConfig where
+  n : Nat
+  σ : Store LCh
+  closeOnceDone : Bool
+  innerClosed : Bool
+  conns : List LConn
+  /-- ghost: some `Close()` call has returned -/
+  closeReturned : Bool
+  gs : List LG
+
+inductive LAct where
+  | call (m : LMeth)
+  /-- execute the head statement; `choice` picks the select arm / the environment's answer
+  (0 = the wrapped listener fails, 1 = it hands out a connection) -/
+  | stmt (choice : Nat)
+deriving DecidableEq, Repr
+
+def ListenSrc.body (S : ListenSrc) : LMeth → List LStmt
+  | .accept => S.accept
+  | .close => S.close
+  | .connClose _ => S.connClose
+
+/-- A method that is a single select / channel operation, run atomically. -/
+def runSingle (m : Method LCh LRes) (σ : Store LCh) (p : Pick) :
+    Option (Store LCh × Option (Arm LCh) × Out LRes) :=
+  match m with
+  | [s] => s.step σ false p
+  | _ => none
+
+def finish (g : LG) (r : LResult) : LG :=
+  { g with cont := [], draining := false, result := some r }
+
+/-- One step of goroutine `g` (index irrelevant) in configuration `c`. -/
+def LG.step (S : ListenSrc) (c : LConfig) (g : LG) : LAct → Option (LConfig × LG)
+  | .call m =>
+    if g.cont.isEmpty then
+      match m with
+      | .connClose k =>
+        -- a client can only close a connection that Accept has returned
+        match c.conns[k]? with
+        | some cn => if cn.returned then
+            some (c, { g with cont := S.body m, meth := m, draining := false, err := false,
+                              conn := false, afterClose := c.closeReturned, result := none })
+          else none
+        | none => none
+      | _ => some (c, { g with cont := S.body m, meth := m, draining := false, err := false,
+                               conn := false, afterClose := c.closeReturned, result := none })
+    else none
+  | .stmt ch =>
+    match g.cont with
+    | [] => none
+    | .ifNotAcquireDrain :: rest =>
+      if g.draining then
+        -- for { c, err := l.Listener.Accept(); if err != nil { return nil, err }; c.Close() }
+        if ch = 0 then some (c, finish g .err)
+        else if c.innerClosed then none      -- a closed wrapped listener only fails
+        else some (c, g)                     -- spurious connection: closed at once, loop
+      else
+        match runSingle S.acquire c.σ (.arm ch) with
+        | some (σ', _, .ret .tt) => some ({ c with σ := σ' }, { g with cont := rest, slot := true })
+        | some (σ', _, .ret .ff) => some ({ c with σ := σ' }, { g with draining := true })
+        | _ => none
+    | .innerAccept :: rest =>
+      if ch = 0 then some (c, { g with cont := rest, err := true, conn := false })
+      else if c.innerClosed then none
+      else some (c, { g with cont := rest, err := false, conn := true })
+    | .ifErrReleaseRet :: rest =>
+      if g.err then
+        match runSingle S.release c.σ (.arm 0) with
+        | some (σ', _, .fall) => some ({ c with σ := σ' }, finish { g with slot := false } .err)
+        | _ => none
+      else some (c, { g with cont := rest })
+    | .retConn :: _ =>
+      -- the new limitListenerConn gets the next index; it carries the semaphore token
+      if g.conn then
+        some ({ c with conns := c.conns ++ [{ returned := true }] },
+              finish { g with slot := false } (.conn c.conns.length))
+      else none
+    | .innerClose :: rest =>
+      match g.meth with
+      | .close => some ({ c with innerClosed := true }, { g with cont := rest })
+      | .connClose k =>
+        match c.conns[k]? with
+        | some cn => some ({ c with conns := c.conns.set k { cn with closeCalled := true } },
+                           { g with cont := rest })
+        | none => none
+      | .accept => none
+    | .onceCloseDone :: rest =>
+      if c.closeOnceDone then some (c, { g with cont := rest })
+      else some ({ c with closeOnceDone := true,
+                          σ := upd c.σ .done { c.σ .done with closed := true } },
+                 { g with cont := rest })
+    | .onceRelease :: rest =>
+      match g.meth with
+      | .connClose k =>
+        match c.conns[k]? with
+        | some cn =>
+          if cn.released then some (c, { g with cont := rest })
+          else
+            match runSingle S.release c.σ (.arm 0) with
+            | some (σ', _, .fall) =>
+              some ({ c with σ := σ',
+                             conns := c.conns.set k { cn with released := true, releases := cn.releases + 1 } },
+                    { g with cont := rest })
+            | _ => none
+        | none => none
+      | _ => none
+    | .retErr :: _ =>
+      match g.meth with
+      | .close => some ({ c with closeReturned := true }, finish g .closed)
+      | _ => some (c, finish g .closed)
+
+def LConfig.step (S : ListenSrc) (c : LConfig) (i : Nat) (a : LAct) : Option LConfig :=
+  match c.gs[i]? with
+  | none => none
+  | some g =>
+    match g.step S c a with
+    | none => none
+    | some (c', g') => some { c' with gs := c.gs.set i g' }
+
+/-- `LimitListener(l, n)` with `m` goroutines that may call Accept / Close / Conn.Close. -/
+def LConfig.init (S : ListenSrc) (n m : Nat) : LConfig :=
+  { n := n,
+    σ := fun ch => match ch with
+      | .sem => ⟨n, 0, false⟩
+      | .done => ⟨S.doneCap, 0, false⟩,
+    closeOnceDone := false, innerClosed := false, conns := [], closeReturned := false,
+    gs := List.replicate m {} }
+
+inductive LReachable (S : ListenSrc) : LConfig → Prop where
+  | init (n m : Nat) : LReachable S (LConfig.init S n m)
+  | step {c c' : LConfig} {i : Nat} {a : LAct} :
+      LReachable S c → c.step S i a = some c' → LReachable S c'
+
+def cnt {α : Type} (f : α → Bool) (l : List α) : Nat := (l.map (fun x => if f x then 1 else 0)).sum
+
+/-- accepted connections that have not been closed -/
+def openConns (c : LConfig) : Nat := cnt (fun cn => cn.returned && !cn.closeCalled) c.conns
+
 end NetVerif.Model.LimitListener
